@@ -763,11 +763,6 @@ Proof.
 Qed.
 
 (* ------------------------------------------------------------------ search order *)
-(* the objects of a scope that a lookup with this stop_id looks at: everything before the first
-   object whose id is present and >= stop_id *)
-Fixpoint visible (stop:nat) (l:list obj) : list obj :=
-  match l with [] => [] | o :: r => if stops stop o then [] else o :: visible stop r end.
-
 Lemma scan_visible : forall stop path l,
   stop <> 0 -> scan stop path l = Ok (filter (cand path) (visible stop l)).
 Proof.
